@@ -349,6 +349,183 @@ fn run_case(case: &Value) -> Value {
     json!({ "obs": obs, "decisions": decisions, "panic": null })
 }
 
+/// One std-shim op inside a host of a running `turmoil::Sim` (variant `"via": "sim"`).
+fn exec_std_op(st: &Value, handles: &mut HashMap<u64, sfs::File>, universe: &[String]) -> Value {
+    let full = st[0].as_str().unwrap();
+    let name = full.strip_suffix("@t").unwrap_or(full);
+    let s = |i: usize| st[i].as_str().unwrap().to_string();
+    match name {
+        "open" => {
+            let slot = st[2].as_u64().unwrap();
+            handles.remove(&slot);
+            match open_opts(&s(4)).open(s(3)) {
+                Ok(f) => {
+                    handles.insert(slot, f);
+                    json!(["ok"])
+                }
+                Err(e) => err(&e),
+            }
+        }
+        "close" => match handles.remove(&st[2].as_u64().unwrap()) {
+            Some(_) => json!(["ok"]),
+            None => json!(["noslot"]),
+        },
+        "write_at" | "read_at" | "write" | "read" | "seek" | "set_len" | "sync_all" | "sync_data"
+        | "flen" => match handles.get_mut(&st[2].as_u64().unwrap()) {
+            None => json!(["noslot"]),
+            Some(f) => match name {
+                "write_at" => num(f.write_at(&bytes(&st[4]), st[3].as_u64().unwrap()).map(|n| n as u64)),
+                "read_at" => {
+                    let mut buf = vec![0xEEu8; st[4].as_u64().unwrap() as usize];
+                    match f.read_at(&mut buf, st[3].as_u64().unwrap()) {
+                        Ok(n) => json!(["ok", buf[..n].to_vec()]),
+                        Err(e) => err(&e),
+                    }
+                }
+                "write" => num(f.write(&bytes(&st[3])).map(|n| n as u64)),
+                "read" => {
+                    let mut buf = vec![0xEEu8; st[3].as_u64().unwrap() as usize];
+                    match f.read(&mut buf) {
+                        Ok(n) => json!(["ok", buf[..n].to_vec()]),
+                        Err(e) => err(&e),
+                    }
+                }
+                "seek" => {
+                    let off = st[4].as_i64().unwrap();
+                    let pos = match st[3].as_u64().unwrap() {
+                        0 => SeekFrom::Start(off as u64),
+                        1 => SeekFrom::Current(off),
+                        _ => SeekFrom::End(off),
+                    };
+                    num(f.seek(pos))
+                }
+                "set_len" => unit(f.set_len(st[3].as_u64().unwrap())),
+                "sync_all" => unit(f.sync_all()),
+                "sync_data" => unit(f.sync_data()),
+                _ => num(f.metadata().map(|m| m.len())),
+            },
+        },
+        "sync_dir" => unit(sfs::sync_dir(s(2))),
+        "mkdir" => unit(sfs::create_dir(s(2))),
+        "mkdir_all" => unit(sfs::create_dir_all(s(2))),
+        "rmdir" => unit(sfs::remove_dir(s(2))),
+        "rmdir_all" => unit(sfs::remove_dir_all(s(2))),
+        "unlink" => unit(sfs::remove_file(s(2))),
+        "rename" => unit(sfs::rename(s(2), s(3))),
+        "stat" => stat(&s(2)),
+        "exists" => json!(["ok", sfs::exists(s(2))]),
+        "readdir" => match sfs::read_dir(s(2)) {
+            Ok(rd) => json!(["ok", sorted_names(rd)]),
+            Err(e) => err(&e),
+        },
+        "slurp" => match sfs::read(s(2)) {
+            Ok(b) => json!(["ok", b]),
+            Err(e) => err(&e),
+        },
+        "spit" => unit(sfs::write(s(2), bytes(&st[3]))),
+        "dump" => dump(universe),
+        other => panic!("unknown op {other}"),
+    }
+}
+
+/// The same scripts through a real `turmoil::Sim`: every host is a command
+/// interpreter, the crash is `Sim::crash` + `Sim::bounce` (handles die with the
+/// host's tasks, the fs crash hook runs, the software restarts).
+fn run_case_sim(case: &Value) -> Value {
+    use std::cell::RefCell;
+    use std::collections::VecDeque;
+    use std::rc::Rc;
+    let cfg = &case["cfg"];
+    let nhosts = cfg["nhosts"].as_u64().unwrap_or(1) as usize;
+    let universe: Vec<String> = cfg["universe"]
+        .as_array()
+        .map(|a| a.iter().map(|x| x.as_str().unwrap().to_string()).collect())
+        .unwrap_or_default();
+    let mut b = turmoil::Builder::new();
+    b.rng_seed(cfg["seed"].as_u64().unwrap_or(0))
+        .tick_duration(Duration::from_millis(1))
+        .simulation_duration(Duration::from_secs(3600));
+    if let Some(p) = cfg["sync_prob"].as_f64() {
+        b.fs().sync_probability(p);
+    }
+    if let Some(bs) = cfg["block_size"].as_u64() {
+        b.fs().block_size(bs);
+    }
+    let mut sim = b.build();
+    let _ = turmoil_fs::verif::take_decisions();
+    type Q = Rc<RefCell<VecDeque<Value>>>;
+    let queues: Vec<Q> = (0..nhosts).map(|_| Rc::new(RefCell::new(VecDeque::new()))).collect();
+    let outs: Vec<Rc<RefCell<Vec<Value>>>> = (0..nhosts).map(|_| Rc::new(RefCell::new(Vec::new()))).collect();
+    let notifies: Vec<Rc<tokio::sync::Notify>> = (0..nhosts).map(|_| Rc::new(tokio::sync::Notify::new())).collect();
+    for h in 0..nhosts {
+        let q = queues[h].clone();
+        let out = outs[h].clone();
+        let nf = notifies[h].clone();
+        let uni = universe.clone();
+        sim.host(format!("h{h}"), move || {
+            let q = q.clone();
+            let out = out.clone();
+            let nf = nf.clone();
+            let uni = uni.clone();
+            async move {
+                let mut handles: HashMap<u64, sfs::File> = HashMap::new();
+                loop {
+                    nf.notified().await;
+                    loop {
+                        let cmd = q.borrow_mut().pop_front();
+                        let Some(cmd) = cmd else { break };
+                        let o = exec_std_op(&cmd, &mut handles, &uni);
+                        out.borrow_mut().push(o);
+                    }
+                }
+                #[allow(unreachable_code)]
+                Ok(())
+            }
+        });
+    }
+    let mut obs: Vec<Value> = Vec::new();
+    let mut decisions: Vec<Value> = Vec::new();
+    for st in case["steps"].as_array().unwrap() {
+        let full = st[0].as_str().unwrap();
+        let name = full.strip_suffix("@t").unwrap_or(full);
+        if name == "tick" {
+            sim.step().unwrap();
+            obs.push(json!(["ok"]));
+            decisions.push(decisions_json());
+            continue;
+        }
+        let h = st[1].as_u64().unwrap() as usize;
+        if name == "crash" {
+            sim.crash(format!("h{h}"));
+            let d = decisions_json();
+            sim.bounce(format!("h{h}"));
+            obs.push(json!(["ok"]));
+            decisions.push(d);
+            continue;
+        }
+        let before = outs[h].borrow().len();
+        queues[h].borrow_mut().push_back(st.clone());
+        notifies[h].notify_one();
+        let mut tries = 0;
+        while outs[h].borrow().len() == before {
+            sim.step().unwrap();
+            tries += 1;
+            if tries > 20 {
+                panic!("host h{h} did not execute {st}");
+            }
+        }
+        obs.push(outs[h].borrow()[before].clone());
+        decisions.push(decisions_json());
+    }
+    json!({ "obs": obs, "decisions": decisions, "panic": null })
+}
+
 fn main() {
-    vharness::run_cases(run_case);
+    vharness::run_cases(|case| {
+        if case["cfg"]["via"].as_str() == Some("sim") {
+            run_case_sim(case)
+        } else {
+            run_case(case)
+        }
+    });
 }
